@@ -109,7 +109,7 @@ CLAIMED = {
 # rules added after the first build (independent seeded changes, refactoring experiments); DESIGN.md 9.3
 ADDED = {
  "C01": "Also: a fresh manager is published only after ruling out an existing one for the key; a pooled manager's key is zeroed; GetOrNewDB is check-then-act under one mutex. A key's fast slot is cleared only after its manager was tombstoned or put into the slow map.",
- "C02": "Also: RemoveLock keeps the LockId index in step; cancelWaitLock selects only not-yet-answered queue entries. The holder lookup by LockId returns only live matching entries and reports a miss only after examining the inline slice and the overflow index.",
+ "C02": "Also: RemoveLock keeps the LockId index in step; cancelWaitLock selects only not-yet-answered queue entries. The holder lookup by LockId returns only live matching entries and reports a miss only after examining the inline slice and the overflow index. Every grant that adds a holder consults the holder index for the request's LockId first (known findings: wakeUpWaitLock does not - two queued requests with one LockId become two holds).",
  "C04": "Also: the FIFO-to-priority-ring switch condition and the arrival-order migration; the priority bypass is decided on path facts whether or not a helper holds it. A direct grant of a new holder in Lock is followed by the wake-up pass unless the waited flag was tested false; a queued request that times out or is cancelled is followed by the wake-up pass (defect repaired).",
  "C05": "Also: sweepers re-arm an entry only after testing its tombstone clear. A millisecond period handed to the second wheels is rounded up, not truncated (defect repaired: a 3999 ms wait was answered after 3.2 s).",
  "C06": "Also: the long-table entry is removed under the deadline read before the update; re-arm only after the tombstone test; recycled long-wait buckets are re-initialised. The millisecond sweep must consult a field an update rewrites before ending a hold (known finding: it does not). A millisecond period handed to the second wheels is rounded up, not truncated (defect repaired).",
